@@ -174,8 +174,67 @@ def results(tier="quick"):
     return _OUT[tier]
 
 
+def _seq_shapes():
+    from ..proc import S, BOOL, INT
+    REAL, B4, STR = ("REAL",), ("BV", 4), ("STRING",)
+    x, y, r = S("x", INT), S("y", INT), S("r", REAL)
+    u, v = S("u", B4), S("v", B4)
+    US = ("CUSTOM", "U")
+    return [("LT", x, y), ("Equals", ("BVAdd", u, v), u), ("LT", ("Times", r, r), r), ("Equals", ("StrLength", S("st", STR)), x),
+            ("forall", [("e", US)], ("Equals", ("fun", "h", US, (US,), S("e", US)), S("e2", US))), ("And", S("a"), S("b")),
+            ("Equals", ("Select", S("arr", ("ARRAY", INT, INT)), x), y), ("LT", ("Plus", x, ("lit", 1, INT)), y)]
+
+
+def _label_sequence_job(mode):
+    """The labels of several formulas asked one after the other in one environment (the detected logics are anonymous objects that
+    share one name) are the labels each formula gets when it is the only one asked."""
+    shapes = _seq_shapes()
+    dummy = proc.Shape(("lit", True, ("BOOL",)))
+
+    def label(w, it, t):
+        f = proc.build_shape(w, t)
+        try:
+            r = it.call(it.module_global(w.repo.modules["pysmt.smtlib.script"], "smtlibscript_from_formula"), [f])
+        except AbsRaise as ex:
+            return "raises " + ex.cls_name
+        cmds = [c for c in it.iterate(it.getattr(r, "commands")) if it.getattr(c, "name") == "set-logic"]
+        lg = it.iterate(it.getattr(cmds[0], "args"))[0] if cmds else None
+        return it.getattr(lg, "name") if isinstance(lg, AObj) else repr(lg)
+
+    def run(ts):
+        res = proc.run_proc(dummy, lambda w, it, f0: [label(w, it, t) for t in ts],
+                            post=lambda w, f, v, facts: proc.ProcResult(dummy, "valid", v), services="full", max_paths=4,
+                            interp_kwargs={"max_steps": 12000000})
+        if len(res) != 1 or res[0].kind != "valid":
+            return None, "%s %s" % (res[0].kind, str(res[0].detail)[:200])
+        return res[0].detail, None
+    order = shapes if mode == "forward" else list(reversed(shapes))
+    got, why = run(order)
+    if got is None:
+        return [("sequence " + mode, "unsupported", why)]
+    out = []
+    for t, g in zip(order, got):
+        alone, why = run([t])
+        if alone is None:
+            out.append((proc.shape_str(t), "unsupported", why))
+        elif alone[0] != g:
+            out.append((proc.shape_str(t), "bad", "asked after other formulas (%s order) the exported script is labelled %s, asked alone %s"
+                        % (mode, g, alone[0])))
+        else:
+            out.append((proc.shape_str(t), "ok", g))
+    return out
+
+
 def run_labels(ctx):
     rs = ctx.rule("R5", "get_logic / smtlibscript_from_formula label the formula with a logic that enables every feature it uses")
+    for mode in ("forward", "backward"):
+        for shape, kind, detail in _label_sequence_job(mode):
+            if kind == "ok":
+                rs.ok({"shape": shape, "label after other formulas (%s)" % mode: detail})
+            elif kind == "bad":
+                ctx.finding(rs, "label-sequence|%s|%s" % (mode, shape), "%s: %s" % (shape, detail), "pysmt/logics.py")
+            else:
+                rs.unrec("label sequence %s: %s" % (shape, detail[:160]))
     for res in results(ctx.tier):
         for shape, kind, detail, result in res:
             if kind in ("valid", "stale"):
